@@ -54,11 +54,25 @@ func magicOf(path string) string {
 	if m == "unknown" {
 		return m
 	}
-	if _, err := decodePackage(m, b); err != nil {
+	o, err := decodePackage(m, b)
+	if err != nil {
 		return m + "-damaged"
+	}
+	// the command line cases configure, per format, an architecture only that format's override block states: a package
+	// built from other settings than the merged ones says another architecture
+	if want, ok := cliOverrideArch[m]; ok && o != nil {
+		key := map[string]string{"deb": "Architecture", "ipk": "Architecture", "rpm": "Arch", "apk": "arch", "archlinux": "arch"}[m]
+		for _, f := range o.Meta {
+			if f.K == key && f.V != want {
+				return m + "-built-from-settings-without-its-override-block(" + f.V + ")"
+			}
+		}
 	}
 	return m
 }
+
+// cliOverrideArch: set while the command line cases run
+var cliOverrideArch = map[string]string{}
 
 func magicPrefixOf(b []byte) string {
 	switch {
@@ -106,6 +120,8 @@ func genCLICases(w *caseWriter, bin string, rng *rand.Rand, st *pkgStats, tier s
 		}
 		cfg.Overrides[f] = ov
 	}
+	cliOverrideArch = map[string]string{"deb": "ovrdeb", "rpm": "ovrrpm", "apk": "ovrapk", "ipk": "ovripk", "archlinux": "ovrarch"}
+	defer func() { cliOverrideArch = map[string]string{} }()
 	yamlPath := filepath.Join(work, "nfpm.yaml")
 	must(os.WriteFile(yamlPath, []byte(marshalConfig(&cfg)), 0o644))
 	exts := map[string]string{"deb": ".deb", "rpm": ".rpm", "apk": ".apk", "ipk": ".ipk", "archlinux": ".pkg.tar.zst"}
